@@ -256,7 +256,7 @@ def untuple(seq):
 
 def run(chk):
     chk.prove([rrel_syntax_tr.translate])
-    n = 2400 if chk.thorough else 340
+    n = 2400 if chk.thorough else 300
     ctrees, ctexts = load_corpus()
     asts = list(CORPUS) + ctrees
     for i in range(n):
@@ -266,7 +266,7 @@ def run(chk):
     # the model's own text is fetched wherever its hash differs
     mine = [p_expr(seq, fl) for seq, fl in asts]
     muts = list(ctexts)
-    nm = 2000 if chk.thorough else 300
+    nm = 2000 if chk.thorough else 260
     for i in range(nm):
         r = chk.rng.split("m%d" % i)
         t = r.choice(mine)
